@@ -99,6 +99,21 @@ pub const MENU_T: &[&str] = &[
     "PULSE 0 \"a\" erf_square(duration: 1.0, pad_right: 0.25, risetime: 0.1)",
     "PULSE 2 \"z\" flat(duration: 1.0, iq: 1)",
 ];
+/// C22 only: a header in which qubits 0 and 1 have NO single-qubit frame, so `RESET 0` uses nothing and
+/// only blocks the two-qubit frame (S115), next to a qubit 2 with its own frame.
+pub const HEADER_B: &str = "DECLARE ro BIT\nDEFFRAME 0 1 \"cz\":\n    SAMPLE-RATE: 1.0\nDEFFRAME 2 \"a\":\n    SAMPLE-RATE: 1.0\n";
+pub const MENU_B: &[&str] = &[
+    "PULSE 0 1 \"cz\" flat(duration: 1.0, iq: 1)",
+    "NONBLOCKING PULSE 0 1 \"cz\" flat(duration: 2.0, iq: 1)",
+    "RESET 0",
+    "RESET 1",
+    "RESET 2",
+    "FENCE 0",
+    "DELAY 0 1.0",
+    "PULSE 2 \"a\" flat(duration: 1.0, iq: 1)",
+    "SET-PHASE 0 1 \"cz\" 1.0",
+    "MEASURE 0 ro",
+];
 pub const TERMS: &[&str] = &["", "JUMP-WHEN @l ro", "HALT"];
 
 #[derive(Clone, Copy, PartialEq)]
@@ -429,9 +444,9 @@ struct Built {
     menu: Vec<Instruction>,
     terms: Vec<Option<Instruction>>,
 }
-fn prebuild(menu: &[&str]) -> Built {
+fn prebuild(header: &str, menu: &[&str]) -> Built {
     Built {
-        header: Program::from_str(HEADER).expect("header"),
+        header: Program::from_str(header).expect("header"),
         menu: menu.iter().map(|s| Instruction::from_str(s).unwrap_or_else(|e| panic!("menu item {s}: {e}"))).collect(),
         terms: TERMS.iter().map(|s| if s.is_empty() { None } else { Some(Instruction::from_str(s).unwrap()) }).collect(),
     }
@@ -448,12 +463,15 @@ fn build_prog(b: &Built, seq: &[usize], term: usize) -> Program {
 }
 
 fn program_sweep(ctx: &mut Ctx, id: &str, which: Which, space: &str, menu: &'static [&'static str], maxlen: usize) {
-    let built = prebuild(menu);
+    program_sweep_h(ctx, id, which, space, HEADER, menu, maxlen)
+}
+fn program_sweep_h(ctx: &mut Ctx, id: &str, which: Which, space: &str, header: &'static str, menu: &'static [&'static str], maxlen: usize) {
+    let built = prebuild(header, menu);
     let mut shrinks = 0usize;
     for len in 0..=maxlen {
         sequences(menu.len(), len, |seq| {
             for (ti, term) in TERMS.iter().enumerate() {
-                if !ctx.take(|| json!({"program": build_text(HEADER, menu, seq, term), "space": space})) {
+                if !ctx.take(|| json!({"program": build_text(header, menu, seq, term), "space": space})) {
                     continue;
                 }
                 ctx.transitions += 1;
@@ -495,9 +513,9 @@ fn program_sweep(ctx: &mut Ctx, id: &str, which: Which, space: &str, menu: &'sta
                                     if !TERMS[sterm].is_empty() {
                                         lines.push(TERMS[sterm]);
                                     }
-                                    (format!("{id}:{clause}:{}", lines.join("; ")), json!({"program": build_text(HEADER, menu, &s, TERMS[sterm]), "space": space}))
+                                    (format!("{id}:{clause}:{}", lines.join("; ")), json!({"program": build_text(header, menu, &s, TERMS[sterm]), "space": space}))
                                 }
-                                None => (format!("{id}:{clause}:(unshrunk)"), json!({"program": build_text(HEADER, menu, seq, term), "space": space})),
+                                None => (format!("{id}:{clause}:(unshrunk)"), json!({"program": build_text(header, menu, seq, term), "space": space})),
                             };
                             ctx.report(viol(&clause, fp, case, format!("{detail} in program: {}", build_text("", menu, seq, term).replace('\n', "; "))));
                         }
@@ -1138,7 +1156,7 @@ pub static C22: PropDef = PropDef {
     id: "C22",
     level: "model_checking",
     engine: "sweep",
-    rule: "every instruction sequence of length <= 3 (thorough 5) over the 28-instruction frame/classical/control-flow menu and over the 22-instruction memory menu x 3 terminators, built on a fixed 4-frame header; each is scheduled by the real ScheduledProgram and every block's graph is checked (edges forward, acyclic, rooted, reaches end). state = a schedulable program; non-trivial = schedulable program with at least one instruction-to-instruction edge (distinct by sequence)",
+    rule: "every instruction sequence of length <= 3 (thorough 5) over the 28-instruction frame/classical/control-flow menu and over the 22-instruction memory menu x 3 terminators, built on a fixed 4-frame header, and of length <= 4 (5) over a 10-instruction menu on a second header whose qubits 0 and 1 have only a shared two-qubit frame (RESET q / FENCE q / DELAY q use nothing there and only block); each is scheduled by the real ScheduledProgram and every block's graph is checked (edges forward, acyclic, rooted, reaches end). state = a schedulable program; non-trivial = schedulable program with at least one instruction-to-instruction edge (distinct by sequence)",
     assumptions: ASSUME,
     run: |ctx| {
         let l = ctx.tier.pick(3, 5);
@@ -1147,6 +1165,8 @@ pub static C22: PropDef = PropDef {
         program_sweep(ctx, "C22", Which::C22, "frames", MENU_F, l);
         let lm = ctx.tier.pick(3, 5);
         program_sweep(ctx, "C22", Which::C22, "memory", MENU_M, lm);
+        ctx.bound("menu_blocked_only", json!(MENU_B));
+        program_sweep_h(ctx, "C22", Which::C22, "blocked-only", HEADER_B, MENU_B, ctx.tier.pick(4, 5));
         ctx.traces = ctx.evals;
     },
     replay: |c| replay_program("C22", Which::C22, c),
